@@ -3,6 +3,7 @@
 //! usage: verif-harness <domain> [key=value ...]
 
 mod codec;
+mod crash;
 mod hyb;
 mod lay;
 mod infl;
@@ -77,6 +78,7 @@ fn main() {
         "tomb" => tomb::main(&args),
         "hyb" | "blk" => hyb::main(&args),
         "lay" => lay::main(&args),
+        "crash" => crash::main(&args),
         _ => {
             eprintln!("unknown domain {domain:?}");
             2
